@@ -235,6 +235,12 @@ def run(ctx):
                 ok_back = bits_of(b.dequantize(), "f16") == bits_of(ds, "f16")
             if not ok_back:
                 ctx.spec_failures.append(("C15:back-conversion-does-not-restore", {"N": N, "K": K, "back_data_shape": list(bd.shape), "zeropoint_dtype": str(b._zeropoint.dtype)}))
+            # converting back is a read: the AWQ tensor denotes the same weights afterwards and converts back to the same tensor again
+            d2 = a.dequantize()
+            b2 = a.qbits_tensor()
+            if bits_of(d2, "f16") != bits_of(d, "f16") or not torch.equal(b2._data.unpack(), bd) or bits_of(b2._scale, "f16") != bits_of(b._scale, "f16") \
+                    or not torch.equal(b2._zeropoint.reshape(-1)[qb._scale.reshape(-1) != 0], b._zeropoint.reshape(-1)[qb._scale.reshape(-1) != 0]):
+                ctx.spec_failures.append(("C15:back-conversion-modifies-the-awq-tensor", {"N": N, "K": K, "max_dequantize_change": float((d2.float() - d.float()).abs().max())}))
         except Exception as e:  # noqa
             back = "raises:" + exc_name(e)
             ctx.spec_failures.append(("C15:back-conversion-does-not-restore", {"N": N, "K": K, "raises": exc_name(e), "message": str(e)[:200]}))
